@@ -241,7 +241,9 @@ class PUBO(BO, PUBOMatrix):
                     pair_frequencies[pair] += 1
 
         # next available label
-        ancilla = self.num_binary_variables
+        # the first integer label the mapping does not use (a mapping declared
+        # with set_mapping may have gaps)
+        ancilla = max(self._reverse_mapping, default=-1) + 1
 
         # do the reductions
         reductions = {}
